@@ -1017,6 +1017,10 @@ impl Sparse {
 
 fn huge_indices(rng: &mut Rng, len: usize) -> usize {
     let wide = vmon::edge::wide_usizes(9);
+    if rng.chance(1, 4) && len > 64 {
+        // anywhere in the live range, biased to its upper half (start + index crosses the wrap)
+        return len / 2 + rng.usize_below(len / 2);
+    }
     match rng.below(8) {
         0 => len,
         1 => len.wrapping_sub(1),
@@ -1030,7 +1034,9 @@ fn huge_indices(rng: &mut Rng, len: usize) -> usize {
 
 /// one probe; returns false after the first violation
 fn huge_probe(rep: &mut Report, seed: u64, r: usize, cfg: usize, n_ops: usize) -> bool {
-    let cap: usize = (1usize << 32) + r;
+    // r < 2^31: capacity 2^32 + r. Otherwise r IS the capacity (values between 2^31 and 2^32:
+    // a sum of two positions then exceeds 32 bits although the capacity itself fits).
+    let cap: usize = if r < (1usize << 31) { (1usize << 32) + r } else { r };
     let case = format!("kind=huge;seed={};r={};cfg={};n={}", seed, r, cfg, n_ops);
     let mut rng = Rng::derive(seed, &[66, r as u64, cfg as u64]);
     let mut ok = true;
@@ -1041,12 +1047,12 @@ fn huge_probe(rep: &mut Report, seed: u64, r: usize, cfg: usize, n_ops: usize) -
         }};
     }
     // ---- Bounded
-    let (start, len) = [(0usize, 0usize), (cap - 2, 0), (cap - 1, 1), (5, (1usize << 32) + 1), (cap - 3, cap), ((1usize << 32) - 1, 5), (7, (1usize << 32) - 2)][cfg % 7];
+    let (start, len) = [(0usize, 0usize), (cap - 2, 0), (cap - 1, 1), (5, cap - 7), (cap - 3, cap), (cap - 9, 5), (7, cap / 2 + 11), (cap / 2 + 3, cap / 2 + 9), (cap - 100, cap - 50)][cfg % 9];
     let res = vmon::catch(|| {
         let mut data = vec![0u8; cap];
         let mut m = Sparse { cap, slots: Default::default() };
         // markers at the ends of the live region and around the 2^32 boundary
-        for (k, i) in [0usize, 1, len.wrapping_sub(1), len.wrapping_sub(2), (1 << 32) - 6, (1 << 32) - 5, 1 << 32, (1 << 32) + 1].into_iter().enumerate() {
+        for (k, i) in [0usize, 1, len.wrapping_sub(1), len.wrapping_sub(2), (1 << 32) - 6, (1 << 32) - 5, 1 << 32, (1 << 32) + 1, len / 2, len / 2 + 1, cap - start, (cap - start).wrapping_sub(1)].into_iter().enumerate() {
             if i < len {
                 let s = m.slot(start, i);
                 data[s] = 101 + k as u8;
@@ -1149,7 +1155,7 @@ fn huge_probe(rep: &mut Report, seed: u64, r: usize, cfg: usize, n_ops: usize) -
         Err(msg) => fail!("huge|bounded|panic", "Bounded::from_raw_parts({}, {}, ..) history panicked: {}", start, len, msg),
     }
     // ---- Fixed
-    let first0 = [0usize, 1, cap - 1, (1usize << 32) - 1, 1 << 32, 3][cfg % 6];
+    let first0 = [0usize, 1, cap - 1, ((1usize << 32) - 1).min(cap - 2), (1usize << 32).min(cap - 3), 3, cap / 2 + 5, cap - 77][cfg % 8];
     let res = vmon::catch(|| {
         let mut data = vec![0u8; cap];
         let mut m = Sparse { cap, slots: Default::default() };
@@ -1242,7 +1248,7 @@ fn huge_probes(rep: &mut Report, seed: u64, n_cfg: usize, n_ops: usize) {
     }
     rep.oblige("huge_capacity_probes", 1);
     for cfg in 0..n_cfg {
-        for r in [3usize, 8] {
+        for r in [3usize, 8, (1 << 31) + 5, (1 << 32) - 1, 3 * (1 << 30) + 1] {
             if !huge_probe(rep, seed, r, cfg, n_ops) {
                 return;
             }
@@ -1388,7 +1394,7 @@ fn main() {
             enumerate_steps(1..=max_cap, &STORES, (0, 1), &mut rep);
             rep.exhaustive(format!("Bounded: every (cap 1..={}, start, len) x every operation of the alphabet (indices 0..cap+2 and usize::MAX, usize::MAX-1, isize::MAX) x 4 storage kinds; Fixed: every (N 1..={}, first) x every operation", max_cap, max_cap));
             check_constructors(&mut rep);
-            huge_probes(&mut rep, cli.seed, cli.t(7, 42), cli.t(300, 3000));
+            huge_probes(&mut rep, cli.seed, cli.t(9, 45), cli.t(300, 3000));
             rep.oblige("iterator_conformance_scripts", 1);
             iterator_conformance(&mut rep, cli.seed, cli.t(6, 9), cli.t(24, 120));
             random_histories(cli.seed, 0, cli.t(20_000, 1_000_000), cli.t(64, 1000), cli.t(200, 600), cli.threads, &STORES, &mut rep);
